@@ -42,9 +42,13 @@ func caseGen() *rapid.Generator[Case] {
 func mixed() *rapid.Generator[gen.Item] {
 	b := gen.BytesItem(gen.TokCSV)
 	a := gen.AnyItem(gen.TokCSV, 1)
+	long := gen.BoundaryString(gen.TokCSV)
 	return rapid.Custom(func(t *rapid.T) gen.Item {
-		if rapid.IntRange(0, 7).Draw(t, "any") == 0 {
+		switch rapid.IntRange(0, 39).Draw(t, "any") {
+		case 0, 1, 2, 3, 4:
 			return a.Draw(t, "any-item")
+		case 5:
+			return gen.S(long.Draw(t, "long")) // record buffers have sizes too
 		}
 		return b.Draw(t, "bytes-item")
 	})
